@@ -6,6 +6,10 @@ CLAIMED = {
    text="Coq theorems over a faithful executable model of DataTracker::process_payload/advance_sequence: buffered-byte accounting holds for every history (no window assumption), the delivery loop terminates within the model's fuel, the generated seq_compare is RFC1982 serial order; the model is tied to the code by regenerating seq_compare from the clang AST on every run and by running the extracted model and DataTracker/Flow/legacy TCPStream on the same scripts; a Spec oracle (prefix-of-stream, nothing stale buffered, accounting) judges the C++ directly.",
    note="Trusted: Coq kernel, cxx2gallina translator + clang AST, extraction (ExtrOcamlBasic only), harness/h_dt.cpp, generators. The full 'delivered = covered prefix for all arrival orders' statement is stated but so far decided by exhaustive small orders + random differential runs, not yet by a theorem (see DESIGN.md status table).",
    tech="Coq proof (invariant by induction over histories) + generated kernel + model/code correspondence on scripts", ref="3/C06"),
+ 'C19': dict(
+   text="Coq theorems over a faithful executable model of AckTracker/AckedRange: interval-set insert/erase/contains are characterised by membership and keep the canonical (sorted, disjoint, non-adjacent) form for all sets and ranges; the AckedRange loop covers exactly the serial range in at most two pieces for every pair of 32-bit sequence numbers (wrap included); seq_compare is regenerated from the source each run. The extracted model and the real AckTracker (driven through real TCP packets whose SACK option goes through the wire codec) run the same histories; a set-of-acknowledged-bytes oracle judges the C++ directly on conforming histories.",
+   note="Trusted: Coq kernel, cxx2gallina + clang AST, extraction, harness/h_ack.cpp, boost::icl modelled as canonical interval lists (validated by correspondence only). The end-to-end statement 'tracker state = acknowledged-byte set for every conforming history' is decided by differential runs + the component theorems, not yet by a single refinement theorem.",
+   tech="Coq proof (interval-set algebra, wrap-around range lemma) + generated kernel + model/code correspondence on receiver-simulated histories", ref="3/C19"),
 }
 ALL = ['C%02d' % i for i in range(1, 20)]
 NA_REASON = "check not built yet in this session (machinery is being extended property by property; see DESIGN.md section 7)"
